@@ -219,6 +219,10 @@ func NewDecoderWithConfig(r io.Reader, config *DecoderConfig) *Decoder {
 
 // Decode decodes the pickle stream and returns the result or an error.
 func (d *Decoder) Decode() (any, error) {
+	// every pickle starts with an empty stack and protocol 0 (as Python's load does);
+	// only the memo is shared by the pickles of one stream.
+	d.stack = d.stack[:0]
+	d.protocol = 0
 
 	insn := 0
 loop:
